@@ -186,7 +186,7 @@ func (c *codec) checkValue(v any, idx int) []finding {
 				bad("size-differs-from-encoding", fmt.Sprintf("reported size %d, encoding is %d bytes (expected size %d)", s, len(cb), len(cb)+c.sizeAdj), b)
 			}
 			if s := c.size(v1); s >= 0 && s != len(cb)+c.sizeAdj {
-				bad("size-of-decoded-differs-from-encoding", fmt.Sprintf("reported size %d, encoding is %d bytes (expected size %d)", s, len(cb), len(cb)+c.sizeAdj), b)
+				bad("size-differs-from-encoding", fmt.Sprintf("reported size %d, encoding is %d bytes (expected size %d)", s, len(cb), len(cb)+c.sizeAdj), b)
 			}
 		}
 		if c.hash != nil {
@@ -823,6 +823,7 @@ type shardOutcome struct {
 	res      jobResult
 	findings []finding
 	restarts int
+	hangs    int
 }
 
 func procCPU(pid int) float64 {
@@ -844,8 +845,12 @@ func procCPU(pid int) float64 {
 	return (ut + st) / 100
 }
 
+// hangCPUSeconds: CPU seconds (not wall clock) a worker may spend on ONE input
+// before it counts as spinning. Typical decode: microseconds; the slowest
+// terminating one observed (16M-element ReadArray) takes below 10. 60 in thorough.
+var hangCPUSeconds = 25.0
+
 const (
-	hangCPUSeconds = 40.0  // CPU seconds a worker may spend on ONE input (typical: microseconds; slowest observed that terminates: ~3 s)
 	stallWallSec   = 900.0 // safety net if the worker does not even consume CPU
 	maxRestarts    = 4
 )
@@ -854,6 +859,10 @@ const (
 // input that killed or hung it.
 func runShard(r *vk.Run, j job, deadline time.Time) shardOutcome {
 	var so shardOutcome
+	maxHangs := 1
+	if j.Thorough {
+		maxHangs = 3
+	}
 	so.res.Outcomes = map[string]int64{}
 	base := jobBase(&j)
 	mk, err := openMarker(base+".marker", true)
@@ -980,7 +989,13 @@ func runShard(r *vk.Run, j job, deadline time.Time) shardOutcome {
 		if j.Replay != "" {
 			return so
 		}
-		if so.restarts > maxRestarts || time.Now().After(deadline) {
+		if hung {
+			so.hangs++
+		}
+		if so.restarts > maxRestarts || so.hangs > maxHangs || time.Now().After(deadline) {
+			if so.hangs > maxHangs {
+				fmt.Printf("worker %s shard %d/%d: exploration of this shard stopped after %d inputs that made the decoder spin\n", j.Codec, j.Shard, j.NShards, so.hangs)
+			}
 			so.res.Capped = true
 			return so
 		}
@@ -1011,6 +1026,9 @@ func TestCheck(t *testing.T) {
 		return
 	}
 	th := r.Thorough()
+	if th {
+		hangCPUSeconds = 60
+	}
 	reg := registry()
 	var evals, nontrivial vk.Counter
 	report := func(f finding) { r.Violation(f.Key, f) }
